@@ -18,7 +18,7 @@ import re
 import numpy as np
 
 from mc import gen, parseback
-from mc.checks.c08 import build_recipe, skeleton
+from mc.checks.c08 import build_recipe, skeleton, twin_constant_programs
 from mc.harness import add_violation, bump, new_part, quiet, setup_repo_import
 
 PROPERTY = "C06"
@@ -412,6 +412,7 @@ def lattice_programs(target_name):
     consts = [("c", 0), ("c", 1), ("c", 0.5), ("c", -2.5), ("c", 2), ("n", "largest"), ("n", "smallest"), ("n", "posinf"), ("n", "neginf"), ("n", "pi"), ("n", "eps")]
     for c in consts:
         progs += [("add", x, c), ("subtract", c, x), ("multiply", ("add", x, c), c), ("select", ("lt", x, c), c, y), ("lt", c, x), ("maximum", x, c)]
+    progs += twin_constant_programs()
     seen, out = set(), []
     for r in progs:
         if r not in seen:
